@@ -510,5 +510,56 @@ seed("c06-overlimit-unread", "C06", "R-dot-state-carried", "data.go",
 			return n - 1, ErrDataTooLarge""", """			r.r.UnreadByte()
 			return n - 1, ErrDataTooLarge""", "over-limit octet pushed back after the automaton advanced on it")
 
+seed("c09-success-not-recorded", "C09", "R-auth-once", "conn.go",
+"""	c.writeResponse(235, EnhancedCode{2, 0, 0}, "Authentication succeeded")
+	c.didAuth = true""", """	c.writeResponse(235, EnhancedCode{2, 0, 0}, "Authentication succeeded")""", "AUTH can succeed twice")
+seed("c20-shutdown-ignores-ctx", "C20", "R-close-effects", "server.go",
+"""	select {
+	case <-ctx.Done():
+		return ctx.Err()
+	case <-connDone:
+		return err
+	}""", """	<-connDone
+	return err""", "Shutdown waits without its context")
+seed("c11-notify-case", "C11", "R-enum-whitelist", "conn.go",
+"notify = append(notify, DSNNotify(strings.ToUpper(val)))", "notify = append(notify, DSNNotify(val))", "lower-case NOTIFY keyword refused")
+seed("c11-size-base0", "C11", "R-size-param", "conn.go",
+"strconv.ParseUint(value, 10, 32)", "strconv.ParseUint(value, 0, 32)", "SIZE=0x10 accepted")
+seed("c05-size-64bit", "C05", "R-bdat-frame", "conn.go",
+"size, err := strconv.ParseUint(args[0], 10, 32)", "size, err := strconv.ParseUint(args[0], 10, 64)", "chunk size wraps negative")
+seed("c05-last-prefix", "C05", "R-pipe-clean-close", "conn.go",
+"""		if !strings.EqualFold(args[1], "LAST") {""", """		if !strings.HasPrefix(strings.ToUpper(args[1]), "LAST") {""", "LASTX ends the message")
+seed("c19-badcmd-not-counted", "C19", "R-errcount", "server.go",
+"""				c.protocolError(501, EnhancedCode{5, 5, 2}, "Bad command")""", """				c.writeResponse(501, EnhancedCode{5, 5, 2}, "Bad command")""", "unparsable lines are not counted")
+seed("c19-reset-clears-errcount", "C19", "R-errcount", "conn.go",
+"""	c.bytesReceived = 0
+""", """	c.bytesReceived = 0
+	c.errCount = 0
+""", "RSET forgives earlier errors")
+seed("c01-initial-state", "C01", "R-data-source", "data.go",
+"""		r: c.text.R,
+	}""", """		r:     c.text.R,
+		state: 4,
+	}""", "message does not start at line start")
+seed("c18-rcpt-dedup", "C18", "R-rcpts-lifecycle", "client.go",
+"""	c.rcpts = append(c.rcpts, to)
+	return nil""", """	for _, rcpt := range c.rcpts {
+		if rcpt == to {
+			return nil
+		}
+	}
+	c.rcpts = append(c.rcpts, to)
+	return nil""", "repeated recipient recorded once")
+seed("c16-stuffed-dot-bol", "C16", "R-dot-table", "data.go",
+"""				r.state = stateDotCR
+				continue
+			}
+			r.state = stateData
+		case stateDotCR:""", """				r.state = stateDotCR
+				continue
+			}
+			r.state = stateBeginLine
+		case stateDotCR:""", "after the stuffing dot the line start state is kept")
+
 json.dump(S, open(os.path.join(os.path.dirname(os.path.abspath(__file__)), "bank.json"), "w"), indent=1)
 print(len(S), "seeds")
